@@ -5,6 +5,7 @@ import ast
 
 from ..astutil import dotted, norm, strip_docstring, walk_body
 from ..dtree import decision_tree
+from ..finite import k_eq, k_is, k_none
 from ..report import Checker
 from ..srcmodel import Func, Unsupported
 
@@ -25,17 +26,15 @@ def _decision_table(ck: Checker, f: Func, lp: ast.For, tvar: str) -> dict[tuple,
     """(has node type, child-valid, property-valid) -> landing kind"""
     leaves = decision_tree(lp.body, alias_filter=lambda st: False)
     table: dict[tuple, str] = {}
-    res_var = None
-    for st in walk_body(lp.body):
-        if isinstance(st, ast.Assign) and isinstance(st.value, ast.Call) and dotted(st.value.func) == "is_valid_child_field_type":
-            res_var = norm(st.targets[0])
     for lf in leaves:
         a = lf.assign
         has = next((v for k, v in a.items() if k.startswith(f"has_check_type_in_type({tvar},")), None)
-        okc = None
-        for k, v in a.items():
-            if res_var and k == "eq(" + ",".join(sorted(("InvalidTypeReason.OK", res_var))) + ")":
-                okc = v
+        okc = next((v for k, v in a.items() if k.startswith("eq(InvalidTypeReason.OK,") and f"is_valid_child_field_type({tvar}," in k), None)
+        if okc is None:
+            # a local holding the verdict (not inlined when it is used after an effectful statement)
+            for k, v in a.items():
+                if k.startswith("eq(InvalidTypeReason.OK,"):
+                    okc = v
         okp = next((v for k, v in a.items() if k == f"is_valid_property_type({tvar})"), None)
         skip = [k for k in a if k not in (f"is_valid_property_type({tvar})",) and not k.startswith(("has_check_type_in_type(", "eq(InvalidTypeReason.OK"))]
         if any(a[k] for k in skip if k.startswith(("is_classvar", "is_initvar", "is_dataclass_kw_only"))):
@@ -265,11 +264,17 @@ def r_child_kind(ck: Checker, rule: str = "R-CHILD-KIND") -> None:
     else:
         ck.violation(rule, f, stores[0], what, construct=f"process_node_fields: child field info is {v} (is_collection is an ABC test that node classes can satisfy)")
     g = ck.repo.func(TYPING, "is_tuple")
-    txt = norm(g.node)
+    p = g.node.args.args[0].arg
+    leaves = decision_tree(strip_docstring(g.node.body), try_as_body=True)
+    k1, k2 = k_is(f"get_origin({p})", "tuple"), k_is(f"get_origin({p})", "Tuple")
     what = "is_tuple recognises tuple annotations by their origin (tuple / typing.Tuple)"
-    ok = "orig is tuple or orig is Tuple" in txt
-    (ck.holds if ok else ck.violation)(rule, g, g.node, what, **({} if ok else {"construct": "is_tuple: origin test not recognised"}))
-
+    ok = any(lf.assign.get(k1) is True and lf.val() == "True" for lf in leaves) and any(lf.assign.get(k2) is True and lf.val() == "True" for lf in leaves)
+    if ok:
+        ck.holds(rule, g, g.node, what, evaluations=len(leaves))
+    elif any(k1 in lf.assign or k2 in lf.assign for lf in leaves):
+        ck.violation(rule, g, g.node, what, construct="is_tuple: a tuple origin does not yield True")
+    else:
+        raise Unsupported("is_tuple: origin test not recognised", g.node)
 
 def run(ck: Checker) -> None:
     ck.explanation = (
